@@ -18,7 +18,7 @@ def round_trace(run, lp, it):
     n = c["NMONTHS"]
     v, s = lp["vars"], lp["series"]
     ev = [dict(ev="Begin", kind="humans" if lp["kind"] == "H" else "animals", z=num(lp["z"]), pf=num(it["pf"]), kd=num(c["KCALS_DAILY"]),
-               swKcal=num(c["seaweed"]["kcals"]), n=n)]
+               swKcal=num(c["seaweed"]["kcals"]), n=n, unchanged=bool(it.get("series_unchanged_afterwards", True)))]
     rep = it["percent"]
     for m in range(n):
         alloc = dict(stored_food=num(v["stored_food_to_humans"][m], pct), outdoor_crops=num(v["crops_food_to_humans"][m], pct),
